@@ -19,8 +19,12 @@ type Params struct {
 	Published *bool // what the DID resolver says about the state (nil = member absent)
 	OmitZero  bool  // zero roots are left out of the proof
 	AuthNonce uint64
-	RootPos   string // merklized root position of the credential's claim
-	Updatable bool
+	// KeyPerturb: the auth claim holds coordinates other than the signing key's, and the claims
+	// tree, state and DID are built around THAT claim ("" = the real key): x+1, x-1, x-neg
+	// (the other sign), y+1, y-1, swap, identity (0,1), order2 (0,-1)
+	KeyPerturb string
+	RootPos    string // merklized root position of the credential's claim
+	Updatable  bool
 }
 
 func (p Params) String() string {
@@ -100,9 +104,12 @@ func Build(rng *rand.Rand, p Params) (*Scenario, error) {
 	if float64(p.AuthNonce) != float64(uint64(float64(p.AuthNonce))) || uint64(float64(p.AuthNonce)) != p.AuthNonce {
 		sc.Name += " nonce-not-float64"
 	}
-	is, err := NewUnsealed(rng, p.AuthNonce)
+	is, err := NewUnsealedKey(rng, p.AuthNonce, p.KeyPerturb)
 	if err != nil {
 		return nil, err
+	}
+	if p.KeyPerturb != "" {
+		sc.Name += " auth-claim-key=" + p.KeyPerturb
 	}
 	att, err := NewUnsealed(rng, uint64(rng.Int63n(1<<53)))
 	if err != nil {
@@ -286,10 +293,44 @@ func Build(rng *rand.Rand, p Params) (*Scenario, error) {
 
 // NewUnsealed creates an identity whose genesis state is not fixed yet.
 func NewUnsealed(rng *rand.Rand, authNonce uint64) (*Identity, error) {
+	return NewUnsealedKey(rng, authNonce, "")
+}
+
+// PerturbKey returns the coordinates the auth claim will hold.
+func PerturbKey(x, y *big.Int, kind string) (*big.Int, *big.Int) {
+	one := big.NewInt(1)
+	mod := func(z *big.Int) *big.Int { return z.Mod(z, Q) }
+	switch kind {
+	case "x+1":
+		return mod(new(big.Int).Add(x, one)), y
+	case "x-1":
+		return mod(new(big.Int).Sub(x, one)), y
+	case "x-neg":
+		return mod(new(big.Int).Neg(x)), y
+	case "y+1":
+		return x, mod(new(big.Int).Add(y, one))
+	case "y-1":
+		return x, mod(new(big.Int).Sub(y, one))
+	case "swap":
+		return y, x
+	case "identity":
+		return big.NewInt(0), big.NewInt(1)
+	case "order2":
+		return big.NewInt(0), new(big.Int).Sub(Q, one)
+	}
+	return x, y
+}
+
+// KeyPerturbations the C07 generator goes through.
+var KeyPerturbations = []string{"x+1", "x-1", "x-neg", "y+1", "y-1", "swap", "identity", "order2"}
+
+// NewUnsealedKey: as NewUnsealed, the auth claim holding perturbed key coordinates.
+func NewUnsealedKey(rng *rand.Rand, authNonce uint64, perturb string) (*Identity, error) {
 	id := &Identity{SK: RandKey(rng), AuthNonce: authNonce}
 	id.PK = id.SK.Public()
+	cx, cy := PerturbKey(id.PK.X, id.PK.Y, perturb)
 	auth, err := core.NewClaim(core.AuthSchemaHash,
-		core.WithIndexDataInts(id.PK.X, id.PK.Y), core.WithRevocationNonce(authNonce))
+		core.WithIndexDataInts(cx, cy), core.WithRevocationNonce(authNonce))
 	if err != nil {
 		return nil, err
 	}
